@@ -422,7 +422,8 @@ def gen_case(seed: int, s: int) -> dict:
         sib = _sibling(rng, r, flags)
         if sib is not None and sib != r:
             siblings.append(sib)
-    return {"prop": "C11", "seed": seed, "scenario": s, "recipe": r, "ordering": ordering, "siblings": siblings,
+    via = "pickle" if rng.random() < 0.04 else None
+    return {"prop": "C11", "seed": seed, "scenario": s, "recipe": r, "ordering": ordering, "siblings": siblings, "via": via,
             "ordering_as_variables": om == "perm-var", "presentations": pres, "other": other, "flags": flags}
 
 
@@ -566,6 +567,20 @@ def run_one_case(case: dict) -> dict:
             v("O2", "canonical_expr_equal", f"raised:{type(ex).__name__}", pres=i, msg=str(ex)[:200])
     for item in after:
         eval_sib(int(item[3:]))
+    # ---- O7 transport: the same expression built in another interpreter (another hash seed) and received through
+    # pickle must canonicalise to the same object (anything cached inside variable objects travels with them)
+    if case.get("via") == "pickle":
+        try:
+            er = world._remote_build({"recipe": case["recipe"]})
+            cr = canonicalize(er, o)
+            if not (cr == c) or not (c == cr):
+                v("O7", "unpickled-from-other-interpreter", diff_class(c, cr), local=str(c), unpickled=str(cr))
+            elif str(cr) != str(c):
+                v("O7", "unpickled-from-other-interpreter", "str-differs", local=str(c), unpickled=str(cr))
+            elif not (er == e) or _hash(er) != _hash(e):
+                v("O7", "unpickled-from-other-interpreter", "input-unequal-or-hash-differs")
+        except Exception as ex:  # noqa: BLE001
+            v("O7", "unpickled-from-other-interpreter", f"raised:{type(ex).__name__}", msg=str(ex)[:200])
     # ---- O5 verdicts (compared across workers by the parent)
     if case.get("other") is not None:
         try:
